@@ -274,6 +274,68 @@ func allocPath(fa *ssa.FieldAddr) (*ssa.Alloc, []int) {
 
 // freeVarBinding finds the value bound to a free variable at the (unique)
 // MakeClosure site of its function.
+// SingleCallArg resolves a parameter of a named function of the package that
+// is invoked at exactly one place (call, go or defer) and never used as a
+// value to the argument passed there. Rules use it on demand to follow a
+// value through a helper's or a goroutine body's parameter list.
+func SingleCallArg(par *ssa.Parameter) ssa.Value {
+	fn := par.Parent()
+	if fn == nil || fn.Pkg == nil || fn.Parent() != nil {
+		return nil
+	}
+	if obj := fn.Object(); obj != nil && obj.Exported() {
+		return nil // callable from outside
+	}
+	idx := -1
+	for i, q := range fn.Params {
+		if q == par {
+			idx = i
+		}
+	}
+	if idx < 0 {
+		return nil
+	}
+	var arg ssa.Value
+	sites, others := 0, 0
+	visit := func(g *ssa.Function) {
+		WithAnon(g, func(h *ssa.Function) {
+			AllInstrs(h, func(_ Node, in ssa.Instruction) {
+				if cc := CallOf(in); cc != nil && !cc.IsInvoke() && cc.StaticCallee() == fn {
+					sites++
+					if idx < len(cc.Args) {
+						arg = cc.Args[idx]
+					}
+					return
+				}
+				for _, op := range in.Operands(nil) {
+					if *op == ssa.Value(fn) {
+						others++
+					}
+				}
+			})
+		})
+	}
+	for _, m := range fn.Pkg.Members {
+		switch x := m.(type) {
+		case *ssa.Function:
+			visit(x)
+		case *ssa.Type:
+			for _, t := range []types.Type{x.Type(), types.NewPointer(x.Type())} {
+				ms := fn.Prog.MethodSets.MethodSet(t)
+				for i := 0; i < ms.Len(); i++ {
+					if mf := fn.Prog.MethodValue(ms.At(i)); mf != nil && mf.Pkg == fn.Pkg && mf.Synthetic == "" {
+						visit(mf)
+					}
+				}
+			}
+		}
+	}
+	if sites != 1 || others != 0 {
+		return nil
+	}
+	return arg
+}
+
 // literalArg resolves a parameter of a function literal that is invoked at
 // exactly one place and used nowhere else (`go func(x T) {...}(v)`, the same
 // with defer, or an immediate call) to the argument passed there.
